@@ -70,8 +70,12 @@ pub open spec fn content_all(evs: Seq<InputEvent>, n: int) -> Seq<char> decrease
         content_all(evs, n - 1) + (match text_of(evs[n - 1]) { Some(t) => t, None => match cdata_of(evs[n - 1]) { Some(c) => c, None => Seq::<char>::empty() } })
     }
 }
+/// the elements whose `text` attribute is rendered as a <text> beside / inside them: for these, text CONTENT is the
+/// same thing written differently (C19: "given through a 'text' attribute, or as the content of a shape or <text>").
+/// `box` and `point` are svgdx's phantom shapes: they render their `text` attribute like any other shape
 pub open spec fn graphics_name(n: Seq<char>) -> bool {
     n == "circle"@ || n == "ellipse"@ || n == "image"@ || n == "line"@ || n == "path"@ || n == "polygon"@ || n == "polyline"@ || n == "rect"@ || n == "text"@ || n == "use"@ || n == "reuse"@
+    || n == "box"@ || n == "point"@
 }
 pub open spec fn svg_ns() -> Seq<char> { "http://www.w3.org/2000/svg"@ }
 
@@ -116,8 +120,7 @@ impl SvgElement {
 //@rewrite strlit strmatch
 //@item src/element.rs :: impl SvgElement :: fn is_graphics_element
 //@ ensures
-//@ - r == (self.name@ == "circle"@ || self.name@ == "ellipse"@ || self.name@ == "image"@ || self.name@ == "line"@ || self.name@ == "path"@
-//@        || self.name@ == "polygon"@ || self.name@ == "polyline"@ || self.name@ == "rect"@ || self.name@ == "text"@ || self.name@ == "use"@ || self.name@ == "reuse"@)
+//@ - r == graphics_name(self.name@)     @@C19.content.every_text_carrier
 //@end
 }
 impl OutputEvent {
@@ -327,11 +330,12 @@ impl AttrMap { #[verifier::external_body] pub fn insert(&mut self, k: &str, v: S
 
 impl EventGen for Container {
 //@item src/transform.rs :: impl EventGen for Container :: fn generate_events
-//@ strlit "circle" "ellipse" "image" "line" "path" "polygon" "polyline" "rect" "use" "reuse"
+//@ strlit "circle" "ellipse" "image" "line" "path" "polygon" "polyline" "rect" "use" "reuse" "box" "point"
 //@ replace[R-inline] <<<for e in inner_events.iter() {>>> => <<<for e in inner_events.events.iter() {>>>
 //@ replace[R-inline] <<<inner_events.is_empty()>>> => <<<(inner_events.events.len() == 0)>>>
 //@ before <<<let mut new_el = self.0.clone();\n                // Special case <svg> elements with an xmlns attribute>>>
 //@ | assert(!(graphics_name(self.0.name@) && inner_events.events@.len() == 0)); // a shape written with a start and an end tag and nothing between them is that shape, not a plain container @C11.container.empty_content_is_empty_element
+//@ | assert(!(graphics_name(self.0.name@) && inner_text is Some)); // text content of a shape (phantom shapes box / point included) is its text, it is never copied through as a plain container's content @C19.content.promoted_for_every_text_carrier
 //@ replace[R-into] <<<return Ok((self.0.all_events(context).into(), None));>>> => <<<return Ok((OutputList::from_input(self.0.all_events(context)), None));>>>
 //@ replace[R-into] <<<                    new_el\n                        .attrs\n                        .insert("data-src-line", self.0.src_line.to_string());>>> => <<<                    new_el.attrs.insert("data-src-line", usize_to_string(self.0.src_line));>>>
 //@ replace[R-into] <<<events.push(OutputEvent::Start(new_el.clone()));>>> => <<<events.push(ev_start(new_el.clone()));>>>
